@@ -40,6 +40,8 @@ PANICS = {
 # ---- functions known not to panic and to terminate (no obligations) ---------------------------------
 SAFE = {
     "<core::result::Result<T, E> as core::ops::Try>::branch",
+    "<core::option::Option<T> as core::ops::Try>::branch",
+    "<core::option::Option<T> as core::ops::FromResidual<core::option::Option<core::convert::Infallible>>>::from_residual",
     "<core::result::Result<T, F> as core::ops::FromResidual<core::result::Result<core::convert::Infallible, E>>>::from_residual",
     "<I as core::iter::IntoIterator>::into_iter",
     "<&tinyvec::ArrayVec<A> as core::iter::IntoIterator>::into_iter",
